@@ -178,6 +178,12 @@ def _cut_loop(E, n, st, spec, kind, iterable=None):
             zs = zbytes(iterable)
             length = z3.Length(zs)
             item = lambda k: mk_int(z3.BV2Int(zs[k]))
+        elif type(iterable).__name__ == 'SEnumerate':
+            # enumerate(byte string, start): the k-th item is the pair (start + k, k-th octet)
+            zs = zbytes(iterable.seq)
+            length = z3.Length(zs)
+            e_start = iterable.start
+            item = lambda k: (mk_int(e_start + k), mk_int(z3.BV2Int(zs[k])))
         else:
             raise Unsupported('invariant loop over %r' % (iterable,))
         env[idx_name] = 0
@@ -219,6 +225,13 @@ def _cut_loop(E, n, st, spec, kind, iterable=None):
         k = E.fresh_int(idx_name)
         env[idx_name] = k
         st.assume(z3.And(k.t >= 0, k.t <= length))
+    # ghost counters (entropy tape cursors ...) advanced by the body are loop-carried too: havoc every integer-valued ghost entry
+    for gk, gv in list(st.ghost.items()):
+        if not gk.startswith('_') and (isinstance(gv, (SInt,)) or (isinstance(gv, int) and not isinstance(gv, bool))):
+            ng = E.fresh_int('ghost_' + gk)
+            if gk.endswith('cursor'):
+                st.assume(ng.t >= zint(gv))       # cursors only move forward
+            st.ghost[gk] = ng
     heap_writes_before = len(st.writes)
     oid_floor = st.next_oid
 
